@@ -1,3 +1,394 @@
 package main
 
-func runCheck(e *Engine, args []string, tier string, timeout int, verif string) int { return 2 }
+// govc check <property>: run every obligation that serves the property on the current /repo tree,
+// report known findings / violations, write /verif/evidence/<id>.json.
+
+import (
+	"encoding/json"
+	"fmt"
+	"os"
+	"os/exec"
+	"path/filepath"
+	"sort"
+	"strconv"
+	"strings"
+	"time"
+
+	"golang.org/x/tools/go/ssa"
+)
+
+type Finding struct {
+	Property    string   `json:"property"`
+	Status      string   `json:"status"` // open | fixed
+	Obligations []string `json:"obligations"` // obligation name globs ('*' suffix allowed)
+	What        string   `json:"what"`
+	Witness     string   `json:"witness,omitempty"`
+	Replay      string   `json:"replay,omitempty"` // replay recipe (go test name) demonstrating it on the real code
+	Commit      string   `json:"commit,omitempty"`
+}
+
+type FindingsFile struct {
+	Findings []Finding `json:"findings"`
+}
+
+type Evidence struct {
+	PropertyID  string         `json:"property_id"`
+	Tier        string         `json:"tier"`
+	Seed        int            `json:"seed"`
+	Level       string         `json:"level"`
+	Coverage    map[string]any `json:"coverage"`
+	Assumptions []string       `json:"assumptions"`
+	WallS       float64        `json:"wall_s"`
+	Violations  int            `json:"violations"`
+}
+
+func loadFindings(verif string) *FindingsFile {
+	ff := &FindingsFile{}
+	b, err := os.ReadFile(filepath.Join(verif, "known_findings.json"))
+	if err != nil {
+		return ff
+	}
+	if err := json.Unmarshal(b, ff); err != nil {
+		fmt.Fprintln(os.Stderr, "govc: known_findings.json:", err)
+		os.Exit(2)
+	}
+	return ff
+}
+
+func obMatches(globs []string, name string) bool {
+	for _, g := range globs {
+		if globMatch(g, name) {
+			return true
+		}
+	}
+	return false
+}
+
+func hasProp(props []string, p string) bool {
+	for _, x := range props {
+		if x == p {
+			return true
+		}
+	}
+	return false
+}
+
+// funcsForProperty: functions that may carry obligations tagged with the property.
+func (e *Engine) funcsForProperty(prop string) []*ssa.Function {
+	var out []*ssa.Function
+	for _, fn := range e.allFns {
+		key := e.keys[fn]
+		if e.skipStandalone(fn) {
+			continue
+		}
+		match := false
+		for _, r := range e.propRules {
+			if hasProp(r.props, prop) && globMatch(r.fnGlob, key) {
+				match = true
+			}
+		}
+		if ct := e.contractFor(fn); ct != nil && !match {
+			if hasProp(ct.Tags, prop) {
+				match = true
+			}
+			for _, cl := range ct.Ensures {
+				if hasProp(cl.Tags, prop) {
+					match = true
+				}
+			}
+			for _, cl := range ct.Requires {
+				if hasProp(cl.Tags, prop) {
+					match = true
+				}
+			}
+			for _, cl := range ct.LoopInvs {
+				if hasProp(cl.Tags, prop) {
+					match = true
+				}
+			}
+			for _, l := range ct.Loops {
+				for _, cl := range l.Invariants {
+					if hasProp(cl.Tags, prop) {
+						match = true
+					}
+				}
+			}
+		}
+		if match {
+			out = append(out, fn)
+		}
+	}
+	return out
+}
+
+func runCheck(e *Engine, args []string, tier string, timeout int, verif string) int {
+	if len(args) < 1 {
+		fmt.Fprintln(os.Stderr, "usage: govc check [flags] <property-id>")
+		return 2
+	}
+	prop := args[0]
+	if t := os.Getenv("VERIF_TIER"); t != "" {
+		tier = t
+	}
+	seed := 0
+	if s := os.Getenv("VERIF_SEED"); s != "" {
+		seed, _ = strconv.Atoi(s)
+	}
+	t0 := time.Now()
+	e.scan()
+	fns := e.funcsForProperty(prop)
+	if len(fns) == 0 {
+		fmt.Fprintf(os.Stderr, "govc: no function carries obligations for %s\n", prop)
+		return 2
+	}
+	opts := SolveOpts{WorkDir: workDir, TimeoutMs: timeout, Cross: true, Batch: 12}
+	if tier == "thorough" {
+		opts.TimeoutMs = timeout * 6
+		opts.Batch = 6
+	}
+	rr := e.verifyFuncs(fns, opts, func(ob *Obligation) bool { return hasProp(ob.Props, prop) || ob.Kind == "cover" })
+	if len(e.errors) > 0 {
+		for _, m := range e.errors {
+			fmt.Println("ENGINE-ERROR:", m)
+		}
+		return 2
+	}
+	ff := loadFindings(verif)
+	nOb, nOK := 0, 0
+	perSolver := map[string]int{}
+	solverSecs := 0.0
+	var failed []*Obligation
+	var funcsUnder []string
+	var samples []any
+	var drift []string
+	trusted := map[string]bool{}
+	kindCount := map[string]int{}
+	for _, fr := range rr.Funcs {
+		if fr.Err != "" {
+			drift = append(drift, fr.Key+": "+fr.Err)
+			continue
+		}
+		n := 0
+		for _, ob := range fr.Obs {
+			if ob.Kind == "cover" {
+				if ob.Status != "sat" {
+					fmt.Printf("VACUOUS: %s: preconditions/axioms are contradictory (%s)\n", ob.Name, ob.Status)
+					return 2
+				}
+				continue
+			}
+			n++
+			nOb++
+			kindCount[ob.Kind]++
+			if ob.Status == "unsat" {
+				nOK++
+				perSolver[ob.Solver]++
+				if len(samples) < 6 && (ob.Kind == "post" || ob.Kind == "pre" || ob.Kind == "modifies" || ob.Kind == "inv-pres") {
+					samples = append(samples, map[string]any{"obligation": ob.Name, "kind": ob.Kind, "at": ob.Pos, "clause": ob.Detail, "goal": trunc(ob.Query, 400), "solver": ob.Solver})
+				}
+			} else {
+				failed = append(failed, ob)
+			}
+		}
+		solverSecs += fr.SolveSec
+		if n > 0 {
+			funcsUnder = append(funcsUnder, fmt.Sprintf("%s (%d obligations)", fr.Key, n))
+		}
+		for _, t := range fr.Trusted {
+			trusted[t] = true
+		}
+	}
+	// triage
+	violations := 0
+	printedKnown := map[string]bool{}
+	os.MkdirAll(filepath.Join(verif, "replays"), 0o755)
+	for _, d := range drift {
+		fmt.Printf("CONTRACT-DRIFT: %s\n", d)
+	}
+	for _, ob := range failed {
+		known := false
+		for i, f := range ff.Findings {
+			if f.Status == "open" && f.Property == prop && obMatches(f.Obligations, ob.Name) {
+				known = true
+				if !printedKnown[strconv.Itoa(i)] {
+					printedKnown[strconv.Itoa(i)] = true
+					fmt.Printf("KNOWN-FINDING: property=%s %s\n", prop, f.What)
+				}
+			}
+		}
+		if known {
+			continue
+		}
+		violations++
+		path := writeReplay(e, verif, prop, ob)
+		suffix := ""
+		if !replayConfirms(e, verif, ob, path) {
+			suffix = " no-failing-input-found"
+		}
+		fmt.Printf("VIOLATION property=%s replay=%s obligation=%s status=%s%s\n", prop, path, ob.Name, ob.Status, suffix)
+	}
+	if len(drift) > 0 && violations == 0 {
+		// a contract no longer binds to the code: nothing was refuted, but nothing is proved either
+		violations++
+		path := filepath.Join(verif, "replays", prop+"-drift.json")
+		b, _ := json.MarshalIndent(map[string]any{"property": prop, "drift": drift}, "", " ")
+		os.WriteFile(path, b, 0o644)
+		fmt.Printf("VIOLATION property=%s replay=%s contract-drift no-failing-input-found\n", prop, path)
+	}
+	// evidence
+	var tb []string
+	tb = append(tb, "SMT solvers z3 5.1.0 / z3 4.8.12 / cvc5 1.0 (answers 'unsat' are trusted)")
+	tb = append(tb, "govc translation of go/ssa (NaiveForm) to verification conditions; drops: error text, DebugRef; integers mathematical (no overflow), float64 as reals, append never writes a shared backing array")
+	var lib []string
+	for k, c := range e.contracts {
+		if c.Assumed && e.usedContracts[k] {
+			lib = append(lib, k)
+		}
+	}
+	sort.Strings(lib)
+	if len(lib) > 0 {
+		tb = append(tb, "assumed library contracts used: "+strings.Join(lib, ", "))
+	}
+	var dk []string
+	for k := range e.defaults {
+		dk = append(dk, k)
+	}
+	sort.Strings(dk)
+	if len(dk) > 0 {
+		tb = append(tb, "external callees with default contract (writes only through pointer arguments): "+strings.Join(dk, ", "))
+	}
+	var tl []string
+	for t := range trusted {
+		tl = append(tl, t)
+	}
+	sort.Strings(tl)
+	for _, t := range tl {
+		tb = append(tb, "trusted (not proved) obligation: "+t)
+	}
+	var ax []string
+	for _, sf := range e.specFiles {
+		for _, a := range sf.Axioms {
+			ax = append(ax, a.Name)
+		}
+	}
+	tb = append(tb, fmt.Sprintf("%d specification axioms (spec/*.gspec and contracts_verif.go): %s", len(ax), strings.Join(ax, ", ")))
+	sort.Strings(funcsUnder)
+	cov := map[string]any{
+		"obligations":        nOb,
+		"discharged":         nOK,
+		"checker_cmd":        fmt.Sprintf("/verif/bin/govc check -tier %s %s", tier, prop),
+		"trusted_base":       tb,
+		"functions":          funcsUnder,
+		"by_kind":            kindCount,
+		"by_backend":         perSolver,
+		"solver_seconds":     round2(solverSecs),
+		"samples":            samples,
+		"known_findings":     len(printedKnown),
+		"undischarged":       obNames(failed),
+		"contract_drift":     drift,
+		"per_obligation_timeout_ms": opts.TimeoutMs,
+	}
+	ev := Evidence{PropertyID: prop, Tier: tier, Seed: seed, Level: "proof", Coverage: cov,
+		Assumptions: tb, WallS: round2(time.Since(t0).Seconds()), Violations: violations}
+	os.MkdirAll(filepath.Join(verif, "evidence"), 0o755)
+	b, _ := json.MarshalIndent(ev, "", " ")
+	os.WriteFile(filepath.Join(verif, "evidence", prop+".json"), b, 0o644)
+	fmt.Printf("check %s: functions=%d obligations=%d discharged=%d known-findings=%d violations=%d wall=%.1fs\n", prop, len(funcsUnder), nOb, nOK, len(printedKnown), violations, time.Since(t0).Seconds())
+	if violations > 0 {
+		return 1
+	}
+	return 0
+}
+
+func round2(f float64) float64 { return float64(int(f*100+0.5)) / 100 }
+
+func trunc(s string, n int) string {
+	if len(s) > n {
+		return s[:n] + " ..."
+	}
+	return s
+}
+
+func obNames(obs []*Obligation) []string {
+	out := []string{}
+	for _, ob := range obs {
+		out = append(out, ob.Name+" ["+ob.Status+"]")
+	}
+	return out
+}
+
+func writeReplay(e *Engine, verif, prop string, ob *Obligation) string {
+	name := sanitize(prop + "-" + ob.Name)
+	if len(name) > 120 {
+		name = name[:120]
+	}
+	path := filepath.Join(verif, "replays", name+".json")
+	m := map[string]any{
+		"property":   prop,
+		"obligation": ob.Name,
+		"kind":       ob.Kind,
+		"function":   ob.Func,
+		"position":   ob.Pos,
+		"clause":     ob.Detail,
+		"status":     ob.Status,
+		"solver":     ob.Solver,
+		"goal":       trunc(ob.Query, 4000),
+		"model":      trunc(ob.Model, 8000),
+	}
+	b, _ := json.MarshalIndent(m, "", " ")
+	os.WriteFile(path, b, 0o644)
+	return path
+}
+
+// replayConfirms runs the replay recipe registered for the obligation (if any) against the real code.
+// Recipes live in /verif/replays/recipes/<name>_test.go and are injected into the package with -overlay.
+func replayConfirms(e *Engine, verif string, ob *Obligation, replayPath string) bool {
+	recipes, _ := filepath.Glob(filepath.Join(verif, "replays", "recipes", "*.json"))
+	for _, rf := range recipes {
+		b, err := os.ReadFile(rf)
+		if err != nil {
+			continue
+		}
+		var r struct {
+			Obligations []string `json:"obligations"`
+			TestFile    string   `json:"test_file"`
+			Run         string   `json:"run"`
+		}
+		if json.Unmarshal(b, &r) != nil || !obMatches(r.Obligations, ob.Name) {
+			continue
+		}
+		out, failed := runOverlayTest(e.repo, filepath.Join(verif, "replays", "recipes", r.TestFile), r.Run)
+		// append the outcome to the replay file
+		var m map[string]any
+		if rb, err := os.ReadFile(replayPath); err == nil && json.Unmarshal(rb, &m) == nil {
+			m["replay_test"] = r.TestFile + " -run " + r.Run
+			m["replay_output"] = trunc(out, 6000)
+			m["replay_reproduced"] = failed
+			nb, _ := json.MarshalIndent(m, "", " ")
+			os.WriteFile(replayPath, nb, 0o644)
+		}
+		if failed {
+			return true
+		}
+	}
+	return false
+}
+
+// runOverlayTest injects a test file into /repo/jsonschema (without writing to the repository) and runs it.
+// It returns the output and whether the test FAILED (i.e. the misbehaviour was reproduced on the real code).
+func runOverlayTest(repo, testFile, run string) (string, bool) {
+	dir, err := os.MkdirTemp("", "govc-replay-")
+	if err != nil {
+		return err.Error(), false
+	}
+	defer os.RemoveAll(dir)
+	ov := map[string]any{"Replace": map[string]string{filepath.Join(repo, "jsonschema", "zz_govc_replay_test.go"): testFile}}
+	ob, _ := json.Marshal(ov)
+	ovPath := filepath.Join(dir, "overlay.json")
+	os.WriteFile(ovPath, ob, 0o644)
+	cmd := exec.Command("go", "test", "-overlay", ovPath, "-vet=off", "-count=1", "-timeout", "60s", "-run", run, ".")
+	cmd.Dir = filepath.Join(repo, "jsonschema")
+	cmd.Env = append(os.Environ(), "GOFLAGS=-mod=mod", "GOPROXY=off", "GOSUMDB=off", "GOTOOLCHAIN=local")
+	out, err := cmd.CombinedOutput()
+	return string(out), err != nil && strings.Contains(string(out), "FAIL")
+}
